@@ -1,7 +1,7 @@
 CONSTANTS MaxCalls = 2
           MaxArgs = 3
           FreeCalls = 1
-          Scope = "thorough"
+          Scope = "quick"
           Adopt = FALSE
 INIT Init
 NEXT Next
@@ -13,4 +13,5 @@ INVARIANT SessPartition
 INVARIANT SessIdempotent
 INVARIANT SessKeepsCols
 INVARIANT NoCondIsIdentity
+INVARIANT EchoLaw
 PROPERTY ArgumentsLeftAlone
